@@ -397,6 +397,13 @@ class Check:
         self.build = None
         self.proof = None
         os.makedirs(os.path.join(ROOT, "out", "replay"), exist_ok=True)
+        if not self.replay:
+            import glob
+            for f in glob.glob(os.path.join(ROOT, "out", "replay", f"{self.pid}_{self.tier}_*.json")):
+                try:
+                    os.remove(f)
+                except OSError:
+                    pass
         os.makedirs(os.path.join(ROOT, "evidence"), exist_ok=True)
 
     # -- bookkeeping
